@@ -126,7 +126,7 @@ def reject_frame_monitor(ctx, tr, ix):
     rp = monitors.replay_of(tr)
     rejects = collections_counter(tr)
     for c in tr.calls:
-        if c["api"] in ("deposit", "withdraw", "finance", "repay", "cancel_order", "combo_buy_rest_sell", "combo_future_close", "combo_auction_two_fill", "combo_auction_cancel", "plan_future_open", "plan_future_split_close", "plan_future_generic_close", "plan_cash_edge", "plan_future_cash_edge"):
+        if c["api"] in ("deposit", "withdraw", "finance", "repay", "cancel_order", "combo_buy_rest_sell", "combo_future_close", "combo_auction_two_fill", "combo_auction_cancel", "plan_future_open", "plan_future_split_close", "plan_future_generic_close", "plan_future_close_today_twice", "plan_cash_edge", "plan_future_cash_edge"):
             continue
         ctx.evaluations += 1
         accepted = [o for o in c["orders"] if o["status"] != "REJECTED" or o["filled"]]
